@@ -1,4 +1,5 @@
 import LouModel
 import LouProofs.Lemmas.PosMap
 import LouProofs.C07
+import LouProofs.C19
 import LouProofs.C20
